@@ -139,9 +139,12 @@ func vpNoSort(x any, less func(i, j int) bool) {}
 // File-level grouping. The candidates are exchangeable (every field symbolic), so leaving
 // sort.Slice out (override: identity) explores every order the real sort could produce and more.
 //vp:override sort.Slice=vpNoSort
-//vp:bounds 3 files (4 in thorough) with 1 block each, symbolic rows/sizes, 2 partitions x 2 key sets, all limits symbolic
+//vp:bounds 3 files with 1 block each, symbolic rows/sizes, 2 partitions x 2 key sets, all limits symbolic (both tiers: a fourth symbolic file did not finish)
 func H_C12_file_grouping_respects_limits() {
-	n := vpBound(3, 4)
+	// 3 files in both tiers: with a fourth symbolic file (even one with concrete extents) the sum /
+	// limit queries went to the 180 s fallback solver one after the other and the run did not finish
+	// in 40 minutes; four files with concrete sizes are H_C12_file_budget_covers_the_whole_merge_call
+	n := 3
 	b := &BloomSearchEngine{config: BloomSearchEngineConfig{
 		MaxRowGroupRows: vpLimit(), MaxRowGroupBytes: vpLimit(), MaxFileSize: vpLimit(), MaxFilesToMergePerOperation: nondetInt()}}
 	vpAssume(b.config.MaxFilesToMergePerOperation >= 2 && b.config.MaxFilesToMergePerOperation < 100)
